@@ -18,7 +18,8 @@
    twin correspondence only. *)
 From Coq Require Import List ZArith Bool Arith.
 From SC Require Import Base.Res Inst.Heap Inst.ClassTable Inst.Model Inst.Framed Inst.FrameProofs
-  Inst.FrozenProofs Inst.Abs Inst.SpecHelpers Inst.RefineProofs Inst.CopyProofs Inst.CopyStore Props.C01.
+  Inst.FrozenProofs Inst.Abs Inst.SpecHelpers Inst.RefineProofs Inst.CopyProofs Inst.CopyStore
+  Inst.SepProofs Props.C01 Props.C02 Props.C08.
 Import ListNotations.
 Open Scope nat_scope.
 
@@ -83,6 +84,35 @@ Theorem C07_cow_call_on_frozen_instance_writes_nothing :
     h_inplace h = false ->
     frame (length (heap s)) s (snd (step ct roots (OpHelper x hp h) s)).
 Proof. exact C01_cow_call_writes_no_existing_cell. Qed.
+
+(* "nested updates through a parent instance": whatever is done in place to
+   another receiver l, with whatever arguments and outcome, a frozen instance
+   lf <> l is not written (nor is any other pre-existing cell but l; for the
+   element helpers: but l and the collection object the attribute holds, which
+   is a list/dict/set, not an instance).  Instances of the confinement theorems
+   of the C02/C08 separation development. *)
+Theorem C07_inplace_operation_on_another_receiver_leaves_frozen_instance_untouched :
+  forall ct, no_dnc_classes ct -> own_metadata ct ->
+  forall roots o s l lf,
+    inplace_attr_op o -> nth (op_target o) roots VNone = VRef l ->
+    frozen_at ct lf s -> lf < length (heap s) -> lf <> l ->
+    nth_error (heap (snd (step ct roots o s))) lf = nth_error (heap s) lf.
+Proof.
+  intros ct H1 H2 roots o s l lf Ho Hx _ Hlt Hne.
+  exact (C08_inplace_confined_to_receiver ct H1 H2 roots o s l Ho Hx lf Hlt Hne).
+Qed.
+
+Theorem C07_element_helper_on_another_receiver_leaves_frozen_instance_untouched :
+  forall ct, no_dnc_classes ct -> own_metadata ct ->
+  forall roots x hp h a s l lf,
+    item_helper_attr hp = Some a -> nth x roots VNone = VRef l ->
+    frozen_at ct lf s -> lf < length (heap s) -> lf <> l ->
+    (forall lc, fst (getattr_default ct l a s) = Ok (VRef lc) -> lf <> lc) ->
+    nth_error (heap (snd (step ct roots (OpHelper x hp h) s))) lf = nth_error (heap s) lf.
+Proof.
+  intros ct H1 H2 roots x hp h a s l lf Hhp Hx _ Hlt Hne Hc.
+  exact (C08_inplace_element_confined ct H1 H2 roots x hp h a s l Hhp Hx lf Hlt Hne Hc).
+Qed.
 
 (* "Copy-on-write helpers return a distinct instance carrying the change and
    otherwise behave exactly as on the same class declared without frozen=True".
@@ -172,6 +202,8 @@ Print Assumptions C07_inplace_operation_on_frozen_instance_writes_nothing.
 Print Assumptions C07_delete_on_frozen_instance_raises_FrozenInstanceError.
 Print Assumptions C07_write_reaching_the_frozen_guard_raises.
 Print Assumptions C07_cow_call_on_frozen_instance_writes_nothing.
+Print Assumptions C07_inplace_operation_on_another_receiver_leaves_frozen_instance_untouched.
+Print Assumptions C07_element_helper_on_another_receiver_leaves_frozen_instance_untouched.
 Print Assumptions C07_cow_with_scalar_partial.
 Print Assumptions C07_twin_with_scalar_partial.
 Print Assumptions C07_nonvacuous.
